@@ -30,8 +30,10 @@ Out ==
                                           \cup {[what |-> "compat", src |-> a, dst |-> b] :
                                                  a \in {L \in Layouts({"rect"}, {<<3, 3>>, <<3>>}) : L.order = "F" /\ ~L.rev},
                                                  b \in {L \in Layouts({"rect", "rectb"}, {<<3, 3>>, <<3>>}) : L.order = "F"}})
-    [] IOEnv.WHAT = "link"   -> SetToSeq({[what |-> "link", src |-> pr[1], dst |-> pr[2], masked |-> m, field |-> FieldC(pr[1])] :
-                                           pr \in {q \in PairLayouts \X PairLayouts : GoodLink(q[1], q[2])}, m \in BOOLEAN})
+    \* st: a static link (published once), the second read is observed
+    [] IOEnv.WHAT = "link"   -> SetToSeq({[what |-> "link", src |-> pr[1], dst |-> pr[2], masked |-> ms[1], st |-> ms[2], field |-> FieldC(pr[1])] :
+                                           pr \in {q \in PairLayouts \X PairLayouts : GoodLink(q[1], q[2])},
+                                           ms \in {<<FALSE, FALSE>>, <<TRUE, FALSE>>, <<FALSE, TRUE>>}})
 ASSUME ndJsonSerialize(IOEnv.OUT_FILE, Out)
 VARIABLE x
 Init == x = 0
